@@ -5,10 +5,12 @@ Lemmas for C17 part 7: the simple prefix code forms (NSYM = 1..4) written by
 import BV.Lemmas.HuffmanEntry
 import BV.Lemmas.HuffmanStoreRead
 import BV.Lemmas.HuffmanOptRle
+import BV.Lemmas.HuffmanStoreTree
 
 namespace BV.Lemmas.HuffmanSimple
 open BV.Bits BV.Huffman BV.Lemmas.HuffmanCanon BV.Lemmas.HuffmanRead BV.Lemmas.HuffmanStoreRead
-open BV.Lemmas.HuffmanCreate BV.Lemmas.HuffmanMerge BV.Lemmas.HuffmanOptRle
+open BV.Lemmas.HuffmanCreate BV.Lemmas.HuffmanMerge BV.Lemmas.HuffmanOptRle BV.Lemmas.HuffmanEntry
+open BV.Lemmas.HuffmanFib
 
 def omap {α β : Type} (f : α → β) : Out α → Out β
   | .ok a => .ok (f a)
@@ -386,10 +388,7 @@ theorem simple_core (d : List Nat) (A n : Nat) (a0 a1 a2 a3 k0 k1 k2 k3 : Nat) (
   refine ⟨bitsOf 2 1 ++ (bitsOf 2 (n - 1) ++ simpleBody n (alphabetBits A) (g p0) (g p1) (g p2) (g p3)
       (decide ([k0, k1, k2, k3].getD p0 0 = 1))), placeLens A (([p0, p1, p2, p3].map g).take n)
       (simplePattern n (decide ([k0, k1, k2, k3].getD p0 0 = 1))), ?_, ?_, ?_⟩
-  · unfold storeSimpleHuffmanTree
-    rw [writeBits_ok 2 1 wr (by decide) (by decide)]
-    simp only [Out.bind_ok]
-    have h1 : 2 ≤ n := by omega
+  · have h1 : 2 ≤ n := by omega
     have h4 : n ≤ 4 := by omega
     have hm : (n + u64 - 1) % u64 = n - 1 := by
       have : n + u64 - 1 = (n - 1) + u64 := by unfold u64; omega
@@ -397,7 +396,11 @@ theorem simple_core (d : List Nat) (A n : Nat) (a0 a1 a2 a3 k0 k1 k2 k3 : Nat) (
     have hlt4 : n - 1 < 2 ^ 2 := by
       have : (2:Nat) ^ 2 = 4 := rfl
       omega
-    rw [hm, writeBits_ok 2 (n - 1) _ hlt4 (by decide)]
+    unfold storeSimpleHuffmanTree
+    rw [hm]
+    rw [writeBits_ok 2 1 wr (by decide) (by decide)]
+    simp only [Out.bind_ok]
+    rw [writeBits_ok 2 (n - 1) _ hlt4 (by decide)]
     simp only [Out.bind_ok, hsort, List.map_cons, List.map_nil]
     rw [storeSimpleTail_spec d n (alphabetBits A) (g p0) (g p1) (g p2) (g p3) _ _ hn hw
       (hgb p0 (hpmem p0 (by simp))) (hgb p1 (hpmem p1 (by simp))) (hgb p2 (hpmem p2 (by simp)))
@@ -453,5 +456,843 @@ theorem simple_core (d : List Nat) (A n : Nat) (a0 a1 a2 a3 k0 k1 k2 k3 : Nat) (
     by_cases hx : x ∈ [a0, a1, a2, a3].take n
     · rw [if_pos (hmemiff.mpr hx), if_pos hx]
     · rw [if_neg (fun h => hx (hmemiff.mp h)), if_neg hx]
+
+
+/-! ### the used symbols in ascending order -/
+
+/-- indices `i ≤ v < i + cnt` with a non-zero entry, ascending -/
+def ascNZ (h : List Nat) : Nat → Nat → List Nat
+  | 0, _ => []
+  | c + 1, i => if h.getD i 0 = 0 then ascNZ h c (i + 1) else i :: ascNZ h c (i + 1)
+
+theorem mem_ascNZ (h : List Nat) : ∀ (c i v : Nat),
+    v ∈ ascNZ h c i ↔ i ≤ v ∧ v < i + c ∧ h.getD v 0 ≠ 0 := by
+  intro c
+  induction c with
+  | zero =>
+    intro i v
+    simp only [ascNZ, List.not_mem_nil, false_iff]
+    rintro ⟨a, b, _⟩; omega
+  | succ c ih =>
+    intro i v
+    simp only [ascNZ]
+    by_cases h0 : h.getD i 0 = 0
+    · simp only [h0, ↓reduceIte, ih]
+      constructor
+      · rintro ⟨a, b, c'⟩; exact ⟨by omega, by omega, c'⟩
+      · rintro ⟨a, b, c'⟩
+        have : v ≠ i := by rintro rfl; exact c' h0
+        exact ⟨by omega, by omega, c'⟩
+    · simp only [h0, ↓reduceIte, List.mem_cons, ih]
+      constructor
+      · rintro (rfl | ⟨a, b, c'⟩)
+        · exact ⟨Nat.le_refl _, by omega, h0⟩
+        · exact ⟨by omega, by omega, c'⟩
+      · rintro ⟨a, b, c'⟩
+        by_cases hv : v = i
+        · left; exact hv
+        · right; exact ⟨by omega, by omega, c'⟩
+
+theorem nodup_ascNZ (h : List Nat) : ∀ (c i : Nat), (ascNZ h c i).Nodup := by
+  intro c
+  induction c with
+  | zero => intro i; exact List.nodup_nil
+  | succ c ih =>
+    intro i
+    simp only [ascNZ]
+    split
+    · exact ih (i + 1)
+    · rw [List.nodup_cons]
+      refine ⟨?_, ih (i + 1)⟩
+      rw [mem_ascNZ]; omega
+
+theorem length_ascNZ (h : List Nat) : ∀ (c i : Nat), i + c ≤ h.length →
+    (ascNZ h c i).length = (((h.drop i).take c).filter (· ≠ 0)).length := by
+  intro c
+  induction c with
+  | zero => intro i _; simp [ascNZ]
+  | succ c ih =>
+    intro i hi
+    have hil : i < h.length := by omega
+    have hd : (h.drop i).take (c + 1) = h.getD i 0 :: (h.drop (i + 1)).take c := by
+      rw [List.drop_eq_getElem_cons hil, List.take_succ_cons, List.getD_eq_getElem?_getD,
+        List.getElem?_eq_getElem hil]
+      rfl
+    rw [hd]
+    simp only [ascNZ]
+    generalize h.getD i 0 = x
+    by_cases h0 : x = 0
+    · simp only [h0, ↓reduceIte, ih (i + 1) (by omega)]
+      simp
+    · simp only [h0, ↓reduceIte, List.length_cons, ih (i + 1) (by omega)]
+      simp [h0]
+
+/-- `s4` with the entries from `c` on overwritten by `L` -/
+def fillS (s4 : List Nat) : Nat → List Nat → List Nat
+  | _, [] => s4
+  | c, x :: xs => fillS (s4.set c x) (c + 1) xs
+
+/-- the `'break31` scan when at most four symbols are in use: `count` = their number,
+`s4` = these symbols in ascending order -/
+theorem scanHistogram_full (histogram : List Nat) : ∀ (cnt i count : Nat) (s4 : List Nat),
+    i + cnt ≤ histogram.length → count + (ascNZ histogram cnt i).length ≤ 4 →
+    scanHistogram histogram cnt i count s4
+      = .ok (count + (ascNZ histogram cnt i).length, fillS s4 count (ascNZ histogram cnt i)) := by
+  intro cnt
+  induction cnt with
+  | zero => intro i count s4 _ _; simp [scanHistogram, ascNZ, fillS]
+  | succ cnt ih =>
+    intro i count s4 hlen h4
+    have hi : i < histogram.length := by omega
+    simp only [scanHistogram, getAt_getD histogram i hi, Out.bind_ok, ascNZ] at h4 ⊢
+    by_cases h0 : histogram.getD i 0 = 0
+    · simp only [h0, ne_eq, not_true_eq_false, ↓reduceIte] at h4 ⊢
+      exact ih (i + 1) count s4 (by omega) h4
+    · simp only [ne_eq, h0, not_false_eq_true, ↓reduceIte, List.length_cons] at h4 ⊢
+      have hc4 : count < 4 := by omega
+      simp only [hc4, ↓reduceIte]
+      rw [ih (i + 1) (count + 1) (s4.set count i) (by omega) (by omega)]
+      simp only [fillS]
+      congr 2
+      omega
+
+/-! ### the depth vector as "lengths placed at the used symbols" -/
+
+theorem kraft_placeLens (A : Nat) (f : Nat → Nat) : ∀ (S : List Nat), S.Nodup → (∀ s ∈ S, s < A) →
+    kraftSum 15 (placeLens A S (S.map f)) = (S.map fun s => kterm (f s)).sum := by
+  intro S
+  induction S with
+  | nil =>
+    intro _ _
+    simp only [List.map_nil, placeLens, List.sum_nil]
+    exact kraftSum_replicate_zero 15 A
+  | cons s S ih =>
+    intro hnd hlt
+    rw [List.nodup_cons] at hnd
+    have hlt' : ∀ x ∈ S, x < A := fun x hx => hlt x (List.mem_cons_of_mem _ hx)
+    obtain ⟨h1, h2⟩ := placeLens_spec A f S hlt'
+    have hs := hlt s (by simp)
+    simp only [List.map_cons, placeLens, List.sum_cons]
+    have hold : (placeLens A S (S.map f)).getD s 0 = 0 := by rw [h2 s, if_neg hnd.1]
+    have := BV.Lemmas.HuffmanShape.sum_map_set (fun l => if l = 0 then 0 else 2 ^ (15 - l))
+      (placeLens A S (S.map f)) s (f s) (by rw [h1]; exact hs)
+    rw [hold] at this
+    simp only [↓reduceIte, Nat.add_zero] at this
+    unfold kraftSum at ih ⊢
+    rw [this, ih hnd.2 hlt']
+    unfold kterm
+    omega
+
+
+/-! ### `max_bits` -/
+
+theorem lt_pow_bitWidth : ∀ (f x : Nat), x < 2 ^ f → x < 2 ^ bitWidth f x := by
+  intro f
+  induction f with
+  | zero => intro x h; simp at h; subst h; simp [bitWidth]
+  | succ f ih =>
+    intro x h
+    simp only [bitWidth]
+    by_cases h0 : x = 0
+    · simp [h0]
+    · simp only [h0, ↓reduceIte]
+      have := ih (x / 2) (by rw [Nat.pow_succ] at h; omega)
+      rw [Nat.pow_succ]
+      omega
+
+theorem bitWidth_le : ∀ (f x k : Nat), x < 2 ^ k → bitWidth f x ≤ k := by
+  intro f
+  induction f with
+  | zero => intro x k _; simp [bitWidth]
+  | succ f ih =>
+    intro x k h
+    simp only [bitWidth]
+    by_cases h0 : x = 0
+    · simp [h0]
+    · simp only [h0, ↓reduceIte]
+      cases k with
+      | zero => simp at h; omega
+      | succ k =>
+        have := ih (x / 2) k (by rw [Nat.pow_succ] at h; omega)
+        omega
+
+theorem alphabetBits_facts (A : Nat) (h1 : 1 ≤ A) (hA : A ≤ 65536) :
+    alphabetBits A ≤ 56 ∧ ∀ a, a < A → a < 2 ^ alphabetBits A := by
+  unfold alphabetBits
+  have hlt : A - 1 < 2 ^ 16 := by
+    have : (2:Nat) ^ 16 = 65536 := by decide
+    omega
+  refine ⟨by have := bitWidth_le 64 (A - 1) 16 hlt; omega, ?_⟩
+  intro a ha
+  have h64 : A - 1 < 2 ^ 64 := by
+    have : (2:Nat) ^ 16 ≤ 2 ^ 64 := Nat.pow_le_pow_right (by decide) (by decide)
+    omega
+  have := lt_pow_bitWidth 64 (A - 1) h64
+  omega
+
+
+/-! ### a depth vector with 2..4 used symbols, stored in the simple form -/
+
+/-- what the builders guarantee about `d1[..len]` for the histogram `h` -/
+structure SimpleIn (h d1 : List Nat) (len : Nat) : Prop where
+  hl : len ≤ d1.length
+  hsupp : ∀ v, v < len → (d1.getD v 0 ≠ 0 ↔ h.getD v 0 ≠ 0)
+  hlim : ∀ v, v < len → d1.getD v 0 ≤ 15
+  hcnt : ∀ v, v < len → d1.getD v 0 + 1 ≤ (ascNZ h len 0).length
+  hkraft : kraftSum 15 (d1.take len) = 32768
+
+theorem take_eq_placeLens (h d1 : List Nat) (len : Nat) (hin : SimpleIn h d1 len) :
+    d1.take len = placeLens len (ascNZ h len 0) ((ascNZ h len 0).map fun x => d1.getD x 0) := by
+  have hlt : ∀ s ∈ ascNZ h len 0, s < len := by
+    intro s hs; have := (mem_ascNZ h len 0 s).mp hs; omega
+  obtain ⟨h1, h2⟩ := placeLens_spec len (fun x => d1.getD x 0) _ hlt
+  apply ext_getD
+  · rw [h1, List.length_take]; have := hin.hl; omega
+  · intro x
+    rw [h2 x]
+    by_cases hx : x < len
+    · have e : (d1.take len).getD x 0 = d1.getD x 0 := by
+        simp [List.getD_eq_getElem?_getD, List.getElem?_take, hx]
+      rw [e]
+      by_cases hm : x ∈ ascNZ h len 0
+      · rw [if_pos hm]
+      · rw [if_neg hm]
+        by_cases hz : d1.getD x 0 = 0
+        · exact hz
+        · exfalso
+          apply hm
+          rw [mem_ascNZ]
+          exact ⟨Nat.zero_le _, by omega, (hin.hsupp x hx).mp hz⟩
+    · have e : (d1.take len).getD x 0 = 0 := by
+        simp [List.getD_eq_getElem?_getD, List.getElem?_take, hx]
+      rw [e, if_neg]
+      intro hm
+      have := (mem_ascNZ h len 0 x).mp hm
+      omega
+
+theorem key_facts (h d1 : List Nat) (len : Nat) (hin : SimpleIn h d1 len) :
+    ((ascNZ h len 0).map fun x => kterm (d1.getD x 0)).sum = 32768 ∧
+    ∀ s ∈ ascNZ h len 0, s < len ∧ d1.getD s 0 ≠ 0 ∧ d1.getD s 0 + 1 ≤ (ascNZ h len 0).length := by
+  have hlt : ∀ s ∈ ascNZ h len 0, s < len := by
+    intro s hs; have := (mem_ascNZ h len 0 s).mp hs; omega
+  constructor
+  · have := kraft_placeLens len (fun x => d1.getD x 0) _ (nodup_ascNZ h len 0) hlt
+    rw [← take_eq_placeLens h d1 len hin, hin.hkraft] at this
+    exact this.symm
+  · intro s hs
+    have hm := (mem_ascNZ h len 0 s).mp hs
+    have hsl : s < len := by omega
+    exact ⟨hsl, (hin.hsupp s hsl).mpr hm.2.2, hin.hcnt s hsl⟩
+
+/-- the simple forms NSYM = 2, 3, 4 in general: `StoreSimpleHuffmanTree` on such a
+vector (symbols = the used ones in ascending order, as the histogram scan leaves
+them) is read back to `d1[..len]` padded to the alphabet size -/
+theorem simple_from_depths (h d1 : List Nat) (len A : Nat) (wr rest : List Bool)
+    (hin : SimpleIn h d1 len) (hu : ∀ s ∈ ascNZ h len 0, s < A) (hA : A ≤ 65536)
+    (hn : 2 ≤ (ascNZ h len 0).length ∧ (ascNZ h len 0).length ≤ 4) :
+    ∃ bits, storeSimpleHuffmanTree d1 (fillS [0, 0, 0, 0] 0 (ascNZ h len 0))
+        (ascNZ h len 0).length (alphabetBits A) wr = .ok (wr ++ bits) ∧
+      readPrefixCode A (bits ++ rest)
+        = some ((d1.take len ++ List.replicate (A - len) 0).take A, rest) := by
+  obtain ⟨hsum, hfacts⟩ := key_facts h d1 len hin
+  have hlen1 : 1 ≤ len ∧ 1 ≤ A := by
+    cases hL : ascNZ h len 0 with
+    | nil => rw [hL] at hn; simp at hn
+    | cons a _ =>
+      have := (hfacts a (by rw [hL]; simp)).1
+      have := hu a (by rw [hL]; simp)
+      omega
+  obtain ⟨hw56, hbits⟩ := alphabetBits_facts A (by omega) hA
+  have hd0 : 0 < d1.length := by have := hin.hl; omega
+  have hget : ∀ a, a < len → getAt d1 a = .ok (d1.getD a 0) :=
+    fun a ha => getAt_getD d1 a (by have := hin.hl; omega)
+  have hz15 : d1.getD 0 0 < 16 := by have := hin.hlim 0 (by omega); omega
+  have hlt : (d1.take len).length = len := by rw [List.length_take]; have := hin.hl; omega
+  -- finish from `simple_core`
+  have finish : ∀ (a0 a1 a2 a3 : Nat) (n : Nat), (n = 2 ∨ n = 3 ∨ n = 4) →
+      [a0, a1, a2, a3].take n = ascNZ h len 0 → (∀ a ∈ [a0, a1, a2, a3], a < len ∧ a < A) →
+      chkSort [d1.getD a0 0, d1.getD a1 0, d1.getD a2 0, d1.getD a3 0] n = true →
+      ∃ bits, storeSimpleHuffmanTree d1 [a0, a1, a2, a3] n (alphabetBits A) wr = .ok (wr ++ bits) ∧
+        readPrefixCode A (bits ++ rest)
+          = some ((d1.take len ++ List.replicate (A - len) 0).take A, rest) := by
+    intro a0 a1 a2 a3 n hn3 htake hall hchk
+    obtain ⟨bits, V, hst, hrd, hVl, hVg⟩ := simple_core d1 A n a0 a1 a2 a3 _ _ _ _ wr rest hn3 hw56
+      (hget a0 (hall a0 (by simp)).1) (hget a1 (hall a1 (by simp)).1) (hget a2 (hall a2 (by simp)).1)
+      (hget a3 (hall a3 (by simp)).1) hchk
+      (fun a ha => hbits a (hall a ha).2)
+      (fun a ha => (hall a (List.mem_of_mem_take ha)).2)
+    refine ⟨bits, hst, ?_⟩
+    rw [hrd]
+    congr 2
+    apply ext_getD
+    · rw [hVl, List.length_take, List.length_append, hlt, List.length_replicate]
+      omega
+    · intro x
+      rw [hVg x, htake]
+      have hR : ((d1.take len ++ List.replicate (A - len) 0).take A).getD x 0
+          = if x < A ∧ x < len then d1.getD x 0 else 0 := by
+        rw [List.getD_eq_getElem?_getD, List.getElem?_take]
+        by_cases hxA : x < A
+        · rw [if_pos hxA]
+          by_cases hx : x < len
+          · rw [List.getElem?_append_left (by omega), if_pos ⟨hxA, hx⟩]
+            simp [List.getD_eq_getElem?_getD, hx]
+          · rw [List.getElem?_append_right (by omega), List.getElem?_replicate,
+              if_neg (fun h : x < A ∧ x < len => hx h.2)]
+            split <;> rfl
+        · rw [if_neg hxA, if_neg (by omega)]; rfl
+      rw [hR]
+      by_cases hm : x ∈ ascNZ h len 0
+      · have := (mem_ascNZ h len 0 x).mp hm
+        rw [if_pos hm, if_pos ⟨hu x hm, by omega⟩]
+      · rw [if_neg hm]
+        by_cases hx : x < A ∧ x < len
+        · rw [if_pos hx]
+          by_cases hz : d1.getD x 0 = 0
+          · exact hz.symm
+          · exfalso
+            apply hm
+            rw [mem_ascNZ]
+            exact ⟨Nat.zero_le _, by omega, (hin.hsupp x hx.2).mp hz⟩
+        · rw [if_neg hx]
+  -- the three possible numbers of symbols
+  match hL : ascNZ h len 0, hn with
+  | [a, b], _ =>
+    rw [hL] at hfacts hsum
+    have ha := hfacts a (by simp)
+    have hb := hfacts b (by simp)
+    simp only [List.length_cons, List.length_nil] at ha hb
+    have hka : d1.getD a 0 = 1 := by omega
+    have hkb : d1.getD b 0 = 1 := by omega
+    simp only [fillS, List.set_cons_zero, List.set_cons_succ, List.length_cons, List.length_nil]
+    apply finish a b 0 0 2 (Or.inl rfl) (by rw [hL]; rfl)
+      (by
+        have hua := hu a (by rw [hL]; simp)
+        have hub := hu b (by rw [hL]; simp)
+        intro x hx; simp at hx; rcases hx with rfl | rfl | rfl | rfl <;> omega)
+    rw [hka, hkb]
+    exact sort2_fact ⟨d1.getD 0 0, hz15⟩ ⟨d1.getD 0 0, hz15⟩
+  | [a, b, c], _ =>
+    rw [hL] at hfacts hsum
+    have ha := hfacts a (by simp)
+    have hb := hfacts b (by simp)
+    have hc := hfacts c (by simp)
+    simp only [List.length_cons, List.length_nil] at ha hb hc
+    simp only [List.map_cons, List.map_nil, List.sum_cons, List.sum_nil, Nat.add_zero] at hsum
+    simp only [fillS, List.set_cons_zero, List.set_cons_succ, List.length_cons, List.length_nil]
+    apply finish a b c 0 3 (Or.inr (Or.inl rfl)) (by rw [hL]; rfl)
+      (by
+        have hua := hu a (by rw [hL]; simp)
+        have hub := hu b (by rw [hL]; simp)
+        have huc := hu c (by rw [hL]; simp)
+        intro x hx; simp at hx; rcases hx with rfl | rfl | rfl | rfl <;> omega)
+    exact sort3_fact ⟨d1.getD a 0, by omega⟩ ⟨d1.getD b 0, by omega⟩ ⟨d1.getD c 0, by omega⟩
+      ha.2.1 hb.2.1 hc.2.1 (by simpa [Nat.add_assoc] using hsum) ⟨d1.getD 0 0, hz15⟩
+  | [a, b, c, e], _ =>
+    rw [hL] at hfacts hsum
+    have ha := hfacts a (by simp)
+    have hb := hfacts b (by simp)
+    have hc := hfacts c (by simp)
+    have he := hfacts e (by simp)
+    simp only [List.length_cons, List.length_nil] at ha hb hc he
+    simp only [List.map_cons, List.map_nil, List.sum_cons, List.sum_nil, Nat.add_zero] at hsum
+    simp only [fillS, List.set_cons_zero, List.set_cons_succ, List.length_cons, List.length_nil]
+    apply finish a b c e 4 (Or.inr (Or.inr rfl)) (by rw [hL]; rfl)
+      (by
+        have hua := hu a (by rw [hL]; simp)
+        have hub := hu b (by rw [hL]; simp)
+        have huc := hu c (by rw [hL]; simp)
+        have hue := hu e (by rw [hL]; simp)
+        intro x hx; simp at hx; rcases hx with rfl | rfl | rfl | rfl <;> omega)
+    exact sort4_fact ⟨d1.getD a 0, by omega⟩ ⟨d1.getD b 0, by omega⟩ ⟨d1.getD c 0, by omega⟩
+      ⟨d1.getD e 0, by omega⟩ ha.2.1 hb.2.1 hc.2.1 he.2.1 (by simpa [Nat.add_assoc] using hsum)
+  | [], hn' => simp at hn'
+  | [_], hn' => simp at hn'
+  | _ :: _ :: _ :: _ :: _ :: _, hn' => simp at hn'
+
+
+/-! ### `BuildAndStoreHuffmanTree` with 2..4 symbols in use -/
+
+theorem maxBits_eq (A : Nat) (h1 : 1 ≤ A) (hA : A ≤ 65536) :
+    bitWidth 64 ((A + u64 - 1) % u64) = alphabetBits A := by
+  have : (A + u64 - 1) % u64 = A - 1 := by
+    have e : A + u64 - 1 = (A - 1) + u64 := by unfold u64; omega
+    rw [e, Nat.add_mod_right, Nat.mod_eq_of_lt (by unfold u64; omega)]
+  rw [this]; rfl
+
+theorem ascNZ_length_filter (h : List Nat) (len : Nat) (hl : len ≤ h.length) :
+    (ascNZ h len 0).length = ((h.take len).filter (· ≠ 0)).length := by
+  have := length_ascNZ h len 0 (by omega)
+  simpa using this
+
+theorem simpleIn_of_good (h d0 d1 : List Nat) (len : Nat) (hl : len ≤ h.length)
+    (hdl : len ≤ d0.length) (hg : GoodDepth h len 15 d0 d1) : SimpleIn h d1 len :=
+  { hl := by rw [hg.hlen]; exact hdl, hsupp := hg.hsupp, hlim := hg.hlim,
+    hcnt := by
+      intro v hv
+      have := hg.hcnt v hv
+      rw [(descNZ_perm_filter h len hl).1, ← ascNZ_length_filter h len hl] at this
+      exact this,
+    hkraft := hg.hkraft }
+
+/-- `BuildAndStoreHuffmanTree` when 2, 3 or 4 symbols are in use (`StoreSimpleHuffmanTree`,
+NSYM = 2..4, including the sort of the symbols by depth and the tree-select bit), in a
+bit-stream context: the RFC 7932 §3.4 reader returns the depths -/
+theorem build_simple_roundtrip (histogram : List Nat) (len A : Nat) (tree : List Node)
+    (depth bits : List Nat) (w rest : List Bool)
+    (hlen : len ≤ histogram.length) (h704 : len ≤ 704) (hsum : (histogram.take len).sum ≤ 2 ^ 25)
+    (hn : 2 ≤ (ascNZ histogram len 0).length ∧ (ascNZ histogram len 0).length ≤ 4)
+    (htl : 2 * len + 1 ≤ tree.length) (hdl : len ≤ depth.length) (hbl : len ≤ bits.length)
+    (hu : ∀ s ∈ ascNZ histogram len 0, s < A) (hA : A ≤ 65536) :
+    ∃ depth' bits' sbits, buildAndStoreHuffmanTree histogram len A tree depth bits w
+        = .ok (depth', bits', w ++ sbits) ∧
+      GoodDepth histogram len 15 (List.replicate len 0 ++ depth.drop len) depth' ∧
+      GoodBits len depth' bits bits' ∧
+      readPrefixCode A (sbits ++ rest)
+        = some ((depth'.take len ++ List.replicate (A - len) 0).take A, rest) := by
+  have hA1 : 1 ≤ A := by
+    cases hL : ascNZ histogram len 0 with
+    | nil => rw [hL] at hn; simp at hn
+    | cons a _ => have := hu a (by rw [hL]; simp); omega
+  have hnf := ascNZ_length_filter histogram len hlen
+  unfold buildAndStoreHuffmanTree
+  rw [scanHistogram_full histogram len 0 0 [0, 0, 0, 0] (by omega) (by omega), maxBits_eq A hA1 hA]
+  simp only [Out.bind_ok, Nat.zero_add]
+  have hs4len : (fillS [0, 0, 0, 0] 0 (ascNZ histogram len 0)).length = 4 := by
+    have : ∀ (L s4 : List Nat) (c : Nat), (fillS s4 c L).length = s4.length := by
+      intro L
+      induction L with
+      | nil => intro s4 c; rfl
+      | cons x xs ih => intro s4 c; simp only [fillS]; rw [ih]; simp
+    rw [this]; rfl
+  rw [getAt_getD _ 0 (by omega)]
+  simp only [Out.bind_ok, show ¬ (ascNZ histogram len 0).length ≤ 1 by omega, ↓reduceIte]
+  have hzp : zeroPrefix depth len = .ok (List.replicate len 0 ++ depth.drop len) := by
+    simp [zeroPrefix, show ¬ len > depth.length by omega]
+  rw [hzp]
+  simp only [Out.bind_ok]
+  have hf : fib (15 + 3) = 2584 := by decide
+  have h1 : len * 2 ^ 15 ≤ 704 * 2 ^ 15 := Nat.mul_le_mul_right _ h704
+  have e1 : (2:Nat) ^ 15 = 32768 := by decide
+  have e2 : (2:Nat) ^ 25 = 33554432 := by decide
+  rw [e1] at h1
+  rw [e2] at hsum
+  obtain ⟨d1, hd1, hg⟩ := create_total_gen histogram len 15 15 (by decide) hlen (by omega)
+    (by rw [← hnf]; exact hn.1)
+    tree htl (List.replicate len 0 ++ depth.drop len) (by simp)
+    (zeroOff_zeroPrefix _ _ _) (by decide) (by rw [e1]; omega) (by rw [hf, e1]; omega)
+  have hd1' : createHuffmanTree histogram len 15 tree (List.replicate len 0 ++ depth.drop len)
+      = .ok d1 := hd1
+  rw [hd1']
+  simp only [Out.bind_ok]
+  have hd1len : len ≤ d1.length := by rw [hg.hlen]; simp
+  -- the bit patterns
+  have hd15 : ∀ x ∈ d1.take len, x ≤ 15 := by
+    intro x hx
+    obtain ⟨i, hi, hxi⟩ := List.getElem_of_mem hx
+    rw [List.length_take] at hi
+    have := hg.hlim i (by omega)
+    rw [List.getD_eq_getElem?_getD, List.getElem?_eq_getElem (by omega)] at this
+    rw [List.getElem_take] at hxi
+    simp only [Option.getD_some] at this
+    omega
+  obtain ⟨b1, hb1, _⟩ := convert_spec (d1.take len) bits hd15
+    (by rw [List.length_take]; omega) (by rw [List.length_take]; omega)
+  have hcv : convertBitDepthsToSymbols d1 len bits = .ok b1 := by
+    rw [convert_take d1 len bits hd1len]; exact hb1
+  rw [hcv]
+  simp only [Out.bind_ok]
+  rw [if_pos hn.2]
+  have hgb := goodBits_of_convert d1 bits b1 len 15 (by decide) hd1len hg.hlim (by omega) hbl hcv
+  obtain ⟨sbits, hst, hrd⟩ := simple_from_depths histogram d1 len A w rest
+    (simpleIn_of_good histogram _ d1 len hlen (by simp) hg) hu hA hn
+  rw [hst]
+  simp only [Out.bind_ok]
+  exact ⟨d1, b1, sbits, rfl, hg, hgb, hrd⟩
+
+
+/-! ### NSYM = 1 -/
+
+theorem placeLens_single (A s0 : Nat) : placeLens A [s0] [0] = List.replicate A 0 := by
+  simp only [placeLens]
+  apply ext_getD
+  · simp
+  · intro x
+    by_cases h : s0 < A
+    · rw [getD_set _ _ _ _ (by simpa using h)]
+      split
+      · rw [replicate_getD]
+      · rfl
+    · rw [List.set_eq_of_length_le (by simp; omega)]
+
+/-- the single-symbol description: 4 bits `1`, then the symbol -/
+theorem readSingle_spec (A s0 : Nat) (rest : List Bool) (h0 : s0 < 2 ^ alphabetBits A) :
+    readPrefixCode A (bitsOf 4 1 ++ (bitsOf (alphabetBits A) s0 ++ rest))
+      = some (List.replicate A 0, rest) := by
+  have e : bitsOf 4 1 = bitsOf 2 1 ++ bitsOf 2 0 := by decide
+  unfold readPrefixCode
+  rw [e, List.append_assoc, takeBits_bitsOf 2 1 _ (by decide)]
+  simp only [Option.bind_eq_bind, Option.bind_some, ↓reduceIte]
+  rw [takeBits_bitsOf 2 0 _ (by decide)]
+  simp only [Option.bind_some]
+  rw [takeBits_bitsOf _ s0 _ h0]
+  simp [placeLens_single]
+
+/-- `BuildAndStoreHuffmanTree` when at most one symbol is in use (NSYM = 1): the symbol
+is stored, its depth and bit pattern are zeroed, and the reader gets the all-zero vector
+(a code with a single symbol has a code word of length zero) -/
+theorem build_single_roundtrip (histogram : List Nat) (len A : Nat) (tree : List Node)
+    (depth bits : List Nat) (w rest : List Bool)
+    (hlen : len ≤ histogram.length) (hn : (ascNZ histogram len 0).length ≤ 1)
+    (hs : (ascNZ histogram len 0).headD 0 < A) (hA1 : 1 ≤ A) (hA : A ≤ 65536)
+    (hsd : (ascNZ histogram len 0).headD 0 < depth.length)
+    (hsb : (ascNZ histogram len 0).headD 0 < bits.length) :
+    ∃ sbits, buildAndStoreHuffmanTree histogram len A tree depth bits w
+        = .ok (depth.set ((ascNZ histogram len 0).headD 0) 0,
+               bits.set ((ascNZ histogram len 0).headD 0) 0, w ++ sbits) ∧
+      readPrefixCode A (sbits ++ rest) = some (List.replicate A 0, rest) := by
+  obtain ⟨hw56, hbits⟩ := alphabetBits_facts A hA1 hA
+  unfold buildAndStoreHuffmanTree
+  rw [scanHistogram_full histogram len 0 0 [0, 0, 0, 0] (by omega) (by omega), maxBits_eq A hA1 hA]
+  simp only [Out.bind_ok, Nat.zero_add]
+  have hs40 : getAt (fillS [0, 0, 0, 0] 0 (ascNZ histogram len 0)) 0
+      = .ok ((ascNZ histogram len 0).headD 0) := by
+    match hL : ascNZ histogram len 0, hn with
+    | [], _ => rfl
+    | [a], _ => rfl
+    | _ :: _ :: _, hn' => simp at hn'
+  rw [hs40]
+  simp only [Out.bind_ok]
+  rw [if_pos hn, writeBits_ok 4 1 w (by decide) (by decide)]
+  simp only [Out.bind_ok]
+  have hwm : alphabetBits A % 256 = alphabetBits A := Nat.mod_eq_of_lt (by omega)
+  rw [hwm, writeBits_ok _ _ _ (hbits _ hs) hw56]
+  simp only [Out.bind_ok]
+  rw [setAt_of_lt depth _ 0 hsd, setAt_of_lt bits _ 0 hsb]
+  simp only [Out.bind_ok]
+  refine ⟨bitsOf 4 1 ++ bitsOf (alphabetBits A) ((ascNZ histogram len 0).headD 0), ?_, ?_⟩
+  · simp [List.append_assoc]
+  · rw [List.append_assoc]
+    exact readSingle_spec A _ rest (hbits _ hs)
+
+
+/-! ### the fast builder (`BrotliBuildAndStoreHuffmanTreeFast`), at most four symbols -/
+
+/-- the scan of the fast builder in terms of the used symbols -/
+theorem fastScan_full (histogram : List Nat) : ∀ (hs : List Nat) (total len0 count : Nat)
+    (symbols : List Nat) (c' len' : Nat) (s' : List Nat), hs = histogram.drop len0 →
+    fastScan hs total len0 count symbols = .ok (c', s', len') →
+    len0 ≤ len' ∧ len' ≤ max len0 histogram.length ∧
+      c' = count + (ascNZ histogram (len' - len0) len0).length ∧
+      (c' ≤ 4 → s' = fillS symbols count (ascNZ histogram (len' - len0) len0)) := by
+  intro hs
+  induction hs with
+  | nil =>
+    intro total len0 count symbols c' len' s' _ h
+    simp only [fastScan] at h
+    split at h
+    · injection h with h; injection h with h1 h2; injection h2 with h2 h3
+      subst h1 h2 h3
+      simp [ascNZ, fillS]; omega
+    · cases h
+  | cons x xs ih =>
+    intro total len0 count symbols c' len' s' hdrop h
+    have hl0 : len0 < histogram.length := by
+      by_cases hlt : len0 < histogram.length
+      · exact hlt
+      · rw [List.drop_eq_nil_of_le (by omega)] at hdrop; cases hdrop
+    have hx : histogram.getD len0 0 = x := by
+      rw [List.drop_eq_getElem_cons hl0] at hdrop
+      injection hdrop with h1 h2
+      rw [List.getD_eq_getElem?_getD, List.getElem?_eq_getElem hl0]; simp [h1]
+    have hxs : xs = histogram.drop (len0 + 1) := by
+      rw [List.drop_eq_getElem_cons hl0] at hdrop
+      injection hdrop with h1 h2
+    simp only [fastScan] at h
+    by_cases ht : total = 0
+    · simp only [ht, ↓reduceIte] at h
+      injection h with h; injection h with h1 h2; injection h2 with h2 h3
+      subst h1 h2 h3
+      simp [ascNZ, fillS]; omega
+    · simp only [ht, ↓reduceIte] at h
+      by_cases hx0 : x = 0
+      · simp only [hx0, ne_eq, not_true_eq_false, ↓reduceIte] at h
+        obtain ⟨a, b, c, d⟩ := ih total (len0 + 1) count symbols c' len' s' hxs h
+        have e : len' - len0 = (len' - (len0 + 1)) + 1 := by omega
+        refine ⟨by omega, by omega, ?_, ?_⟩
+        · rw [e]; simp only [ascNZ, hx, hx0, ↓reduceIte]; exact c
+        · rw [e]; simp only [ascNZ, hx, hx0, ↓reduceIte]; exact d
+      · simp only [ne_eq, hx0, not_false_eq_true, ↓reduceIte] at h
+        obtain ⟨a, b, c, d⟩ := ih _ (len0 + 1) (count + 1) _ c' len' s' hxs h
+        have e : len' - len0 = (len' - (len0 + 1)) + 1 := by omega
+        refine ⟨by omega, by omega, ?_, ?_⟩
+        · rw [e]; simp only [ascNZ, hx, hx0, ↓reduceIte, List.length_cons]; omega
+        · intro hc4
+          rw [e]; simp only [ascNZ, hx, hx0, ↓reduceIte, fillS]
+          have hcnt : count < 4 := by omega
+          rw [if_pos hcnt] at d
+          exact d hc4
+
+theorem kraft15_of_14 (l : List Nat) (h : ∀ x ∈ l, x ≤ 14) (hk : kraftSum 14 l = 2 ^ 14) :
+    kraftSum 15 l = 32768 := by
+  have := BV.Lemmas.HuffmanStoreTree.kraft_scale 14 1 l h
+  rw [show 14 + 1 = 15 from rfl, hk] at this
+  rw [this]
+
+theorem simpleIn_of_good14 (h d0 d1 : List Nat) (len : Nat) (hl : len ≤ h.length)
+    (hdl : len ≤ d0.length) (hg : GoodDepth h len 14 d0 d1) : SimpleIn h d1 len :=
+  { hl := by rw [hg.hlen]; exact hdl, hsupp := hg.hsupp,
+    hlim := fun v hv => by have := hg.hlim v hv; omega,
+    hcnt := by
+      intro v hv
+      have := hg.hcnt v hv
+      rw [(descNZ_perm_filter h len hl).1, ← ascNZ_length_filter h len hl] at this
+      exact this,
+    hkraft := by
+      apply kraft15_of_14 _ _ hg.hkraft
+      intro x hx
+      obtain ⟨i, hi, hxi⟩ := List.getElem_of_mem hx
+      rw [List.length_take] at hi
+      have hdl1 : len ≤ d1.length := by rw [hg.hlen]; exact hdl
+      have := hg.hlim i (by omega)
+      rw [List.getD_eq_getElem?_getD, List.getElem?_eq_getElem (by omega)] at this
+      rw [List.getElem_take] at hxi
+      simp only [Option.getD_some] at this
+      omega }
+
+/-- `BrotliBuildAndStoreHuffmanTreeFast` when 2, 3 or 4 symbols are in use -/
+theorem fast_simple_roundtrip (histogram : List Nat) (total A : Nat) (depth bits : List Nat)
+    (w rest : List Bool) (count length : Nat) (symbols : List Nat)
+    (hscan : fastScan histogram total 0 0 [0, 0, 0, 0] = .ok (count, symbols, length))
+    (hc : 2 ≤ count ∧ count ≤ 4) (h704 : histogram.length ≤ 704) (hsum : histogram.sum ≤ 2 ^ 25)
+    (hdl : length ≤ depth.length) (hbl : length ≤ bits.length)
+    (hu : ∀ s ∈ ascNZ histogram length 0, s < A) (hA : A ≤ 65536) :
+    ∃ depth' bits' sbits, buildAndStoreHuffmanTreeFast histogram total (alphabetBits A) depth bits w
+        = .ok (depth', bits', w ++ sbits) ∧
+      GoodDepth histogram length 14 (List.replicate length 0 ++ depth.drop length) depth' ∧
+      GoodBits length depth' bits bits' ∧
+      readPrefixCode A (sbits ++ rest)
+        = some ((depth'.take length ++ List.replicate (A - length) 0).take A, rest) := by
+  obtain ⟨_, hl, hcnt, hsym⟩ := fastScan_full histogram histogram total 0 0 [0, 0, 0, 0] count length
+    symbols rfl hscan
+  simp only [Nat.sub_zero, Nat.zero_add, Nat.zero_le, Nat.max_eq_right] at hl hcnt hsym
+  have hsym' := hsym hc.2
+  have hn : 2 ≤ (ascNZ histogram length 0).length ∧ (ascNZ histogram length 0).length ≤ 4 := by
+    omega
+  have hnf := ascNZ_length_filter histogram length hl
+  unfold buildAndStoreHuffmanTreeFast
+  rw [hscan]
+  simp only [Out.bind_ok]
+  have hs4len : symbols.length = 4 := by
+    rw [hsym']
+    have : ∀ (L s4 : List Nat) (c : Nat), (fillS s4 c L).length = s4.length := by
+      intro L
+      induction L with
+      | nil => intro s4 c; rfl
+      | cons x xs ih => intro s4 c; simp only [fillS]; rw [ih]; simp
+    rw [this]; rfl
+  rw [getAt_getD symbols 0 (by omega)]
+  simp only [Out.bind_ok]
+  rw [if_neg (by omega)]
+  have hzp : zeroPrefix depth length = .ok (List.replicate length 0 ++ depth.drop length) := by
+    simp [zeroPrefix, show ¬ length > depth.length by omega]
+  rw [hzp]
+  simp only [Out.bind_ok]
+  have hf : fib 17 = 1597 := by decide
+  have e1 : (2:Nat) ^ 16 = 65536 := by decide
+  have e2 : (2:Nat) ^ 25 = 33554432 := by decide
+  have h1 : length * 2 ^ 16 ≤ 704 * 2 ^ 16 := Nat.mul_le_mul_right _ (by omega)
+  have hst := sum_take_le histogram length
+  rw [e1] at h1
+  rw [e2] at hsum
+  obtain ⟨d1, hd1, hg⟩ := fast_total histogram length 16 hl (by omega) (by rw [← hnf]; exact hn.1)
+    (List.replicate length 0 ++ depth.drop length) (by simp)
+    (zeroOff_zeroPrefix _ _ _) (by decide) (by rw [e1]; omega) (by rw [hf, e1]; omega)
+  rw [hd1]
+  simp only [Out.bind_ok]
+  have hd1len : length ≤ d1.length := by rw [hg.hlen]; simp
+  have hd15 : ∀ x ∈ d1.take length, x ≤ 15 := by
+    intro x hx
+    obtain ⟨i, hi, hxi⟩ := List.getElem_of_mem hx
+    rw [List.length_take] at hi
+    have := hg.hlim i (by omega)
+    rw [List.getD_eq_getElem?_getD, List.getElem?_eq_getElem (by omega)] at this
+    rw [List.getElem_take] at hxi
+    simp only [Option.getD_some] at this
+    omega
+  obtain ⟨b1, hb1, _⟩ := convert_spec (d1.take length) bits hd15
+    (by rw [List.length_take]; omega) (by rw [List.length_take]; omega)
+  have hcv : convertBitDepthsToSymbols d1 length bits = .ok b1 := by
+    rw [convert_take d1 length bits hd1len]; exact hb1
+  rw [hcv]
+  simp only [Out.bind_ok]
+  rw [if_pos hc.2]
+  have hgb := goodBits_of_convert d1 bits b1 length 14 (by decide) hd1len hg.hlim (by omega) hbl hcv
+  obtain ⟨sbits, hst, hrd⟩ := simple_from_depths histogram d1 length A w rest
+    (simpleIn_of_good14 histogram _ d1 length hl (by simp) hg) hu hA hn
+  -- the inlined simple writer of the fast builder is `StoreSimpleHuffmanTree`
+  have hm : (count + u64 - 1) % u64 = count - 1 := by
+    have e : count + u64 - 1 = (count - 1) + u64 := by unfold u64; omega
+    rw [e, Nat.add_mod_right, Nat.mod_eq_of_lt (by unfold u64; omega)]
+  unfold storeSimpleHuffmanTree at hst
+  rw [← hcnt, ← hsym', hm] at hst
+  cases ha : writeBits 2 1 w with
+  | panic => rw [ha] at hst; cases hst
+  | fuel => rw [ha] at hst; cases hst
+  | ok w1 =>
+    rw [ha] at hst
+    simp only [Out.bind_ok] at hst ⊢
+    cases hb : writeBits 2 (count - 1) w1 with
+    | panic => rw [hb] at hst; cases hst
+    | fuel => rw [hb] at hst; cases hst
+    | ok w2 =>
+      rw [hb] at hst
+      simp only [Out.bind_ok] at hst ⊢
+      cases hcs : sortSymbolsOuter d1 count count 0 symbols with
+      | panic => rw [hcs] at hst; cases hst
+      | fuel => rw [hcs] at hst; cases hst
+      | ok s2 =>
+        rw [hcs] at hst
+        simp only [Out.bind_ok] at hst ⊢
+        rw [hst]
+        simp only [Out.bind_ok]
+        exact ⟨d1, b1, sbits, rfl, hg, hgb, hrd⟩
+
+
+/-- `BrotliBuildAndStoreHuffmanTreeFast` when at most one symbol is in use -/
+theorem fast_single_roundtrip (histogram : List Nat) (total A : Nat) (depth bits : List Nat)
+    (w rest : List Bool) (count length : Nat) (symbols : List Nat)
+    (hscan : fastScan histogram total 0 0 [0, 0, 0, 0] = .ok (count, symbols, length))
+    (hc : count ≤ 1) (hs : symbols.getD 0 0 < A) (hA1 : 1 ≤ A) (hA : A ≤ 65536)
+    (hsd : symbols.getD 0 0 < depth.length) (hsb : symbols.getD 0 0 < bits.length) :
+    ∃ sbits, buildAndStoreHuffmanTreeFast histogram total (alphabetBits A) depth bits w
+        = .ok (depth.set (symbols.getD 0 0) 0, bits.set (symbols.getD 0 0) 0, w ++ sbits) ∧
+      readPrefixCode A (sbits ++ rest) = some (List.replicate A 0, rest) := by
+  obtain ⟨hw56, hbits⟩ := alphabetBits_facts A hA1 hA
+  obtain ⟨_, _, _, hsym⟩ := fastScan_full histogram histogram total 0 0 [0, 0, 0, 0] count length
+    symbols rfl hscan
+  have hs4len : symbols.length = 4 := by
+    rw [hsym (by omega)]
+    have : ∀ (L s4 : List Nat) (c : Nat), (fillS s4 c L).length = s4.length := by
+      intro L
+      induction L with
+      | nil => intro s4 c; rfl
+      | cons x xs ih => intro s4 c; simp only [fillS]; rw [ih]; simp
+    rw [this]; rfl
+  unfold buildAndStoreHuffmanTreeFast
+  rw [hscan]
+  simp only [Out.bind_ok]
+  rw [getAt_getD symbols 0 (by omega)]
+  simp only [Out.bind_ok]
+  rw [if_pos hc, writeBits_ok 4 1 w (by decide) (by decide)]
+  simp only [Out.bind_ok]
+  have hwm : alphabetBits A % 256 = alphabetBits A := Nat.mod_eq_of_lt (by omega)
+  rw [hwm, writeBits_ok _ _ _ (hbits _ hs) hw56]
+  simp only [Out.bind_ok]
+  rw [setAt_of_lt depth _ 0 hsd, setAt_of_lt bits _ 0 hsb]
+  simp only [Out.bind_ok]
+  refine ⟨bitsOf 4 1 ++ bitsOf (alphabetBits A) (symbols.getD 0 0), ?_, ?_⟩
+  · simp [List.append_assoc]
+  · rw [List.append_assoc]
+    exact readSingle_spec A _ rest (hbits _ hs)
+
+
+/-! ### `BuildAndStoreHuffmanTree` with five or more symbols in use (complex form) -/
+
+theorem scanHistogram_ge5 (histogram : List Nat) : ∀ (cnt i count : Nat) (s4 : List Nat),
+    i + cnt ≤ histogram.length → s4.length = 4 → 5 ≤ count + (ascNZ histogram cnt i).length →
+    ∃ c' s4', scanHistogram histogram cnt i count s4 = .ok (c', s4') ∧ 5 ≤ c' ∧ s4'.length = 4 := by
+  intro cnt
+  induction cnt with
+  | zero => intro i count s4 _ hs h; exact ⟨count, s4, rfl, by simpa [ascNZ] using h, hs⟩
+  | succ cnt ih =>
+    intro i count s4 hlen hs h5
+    have hi : i < histogram.length := by omega
+    simp only [scanHistogram, getAt_getD histogram i hi, Out.bind_ok, ascNZ] at h5 ⊢
+    by_cases h0 : histogram.getD i 0 = 0
+    · simp only [h0, ne_eq, not_true_eq_false, ↓reduceIte] at h5 ⊢
+      exact ih (i + 1) count s4 (by omega) hs h5
+    · simp only [ne_eq, h0, not_false_eq_true, ↓reduceIte, List.length_cons] at h5 ⊢
+      by_cases hc4 : count < 4
+      · simp only [hc4, ↓reduceIte]
+        exact ih (i + 1) (count + 1) (s4.set count i) (by omega) (by simp [hs]) (by omega)
+      · simp only [hc4, ↓reduceIte]
+        by_cases hc5 : count > 4
+        · simp only [hc5, ↓reduceIte]
+          exact ⟨count, s4, rfl, by omega, hs⟩
+        · simp only [hc5, ↓reduceIte]
+          exact ih (i + 1) (count + 1) s4 (by omega) hs (by omega)
+
+/-- `BuildAndStoreHuffmanTree` when five or more symbols are in use, in a bit-stream
+context and read with an alphabet size `A` below which all used symbols lie -/
+theorem build_complex_roundtrip (histogram : List Nat) (len A : Nat) (tree : List Node)
+    (depth bits : List Nat) (w rest : List Bool) (alphabetSize : Nat)
+    (hlen : len ≤ histogram.length) (h704 : len ≤ 704) (hsum : (histogram.take len).sum ≤ 2 ^ 25)
+    (hn : 5 ≤ (ascNZ histogram len 0).length)
+    (htl : 2 * len + 1 ≤ tree.length) (ht37 : 37 ≤ tree.length) (hdl : len ≤ depth.length)
+    (hbl : len ≤ bits.length) (hA : A ≤ len) (hu : ∀ s ∈ ascNZ histogram len 0, s < A) :
+    ∃ depth' bits' sbits, buildAndStoreHuffmanTree histogram len alphabetSize tree depth bits w
+        = .ok (depth', bits', w ++ sbits) ∧
+      GoodDepth histogram len 15 (List.replicate len 0 ++ depth.drop len) depth' ∧
+      GoodBits len depth' bits bits' ∧
+      readPrefixCode A (sbits ++ rest) = some (depth'.take A, rest) := by
+  have hnf := ascNZ_length_filter histogram len hlen
+  obtain ⟨count, s4, hsc, hc5, hs4⟩ := scanHistogram_ge5 histogram len 0 0 [0, 0, 0, 0] (by omega) rfl
+    (by omega)
+  unfold buildAndStoreHuffmanTree
+  rw [hsc]
+  simp only [Out.bind_ok]
+  rw [getAt_getD s4 0 (by omega)]
+  simp only [Out.bind_ok]
+  rw [if_neg (by omega)]
+  have hzp : zeroPrefix depth len = .ok (List.replicate len 0 ++ depth.drop len) := by
+    simp [zeroPrefix, show ¬ len > depth.length by omega]
+  rw [hzp]
+  simp only [Out.bind_ok]
+  have hf : fib (15 + 3) = 2584 := by decide
+  have h1 : len * 2 ^ 15 ≤ 704 * 2 ^ 15 := Nat.mul_le_mul_right _ h704
+  have e1 : (2:Nat) ^ 15 = 32768 := by decide
+  have e2 : (2:Nat) ^ 25 = 33554432 := by decide
+  rw [e1] at h1
+  rw [e2] at hsum
+  obtain ⟨d1, hd1, hg⟩ := create_total_gen histogram len 15 15 (by decide) hlen (by omega)
+    (by rw [← hnf]; omega)
+    tree htl (List.replicate len 0 ++ depth.drop len) (by simp)
+    (zeroOff_zeroPrefix _ _ _) (by decide) (by rw [e1]; omega) (by rw [hf, e1]; omega)
+  have hd1' : createHuffmanTree histogram len 15 tree (List.replicate len 0 ++ depth.drop len)
+      = .ok d1 := hd1
+  rw [hd1']
+  simp only [Out.bind_ok]
+  have hd1len : len ≤ d1.length := by rw [hg.hlen]; simp
+  have hd15 : ∀ x ∈ d1.take len, x ≤ 15 := by
+    intro x hx
+    obtain ⟨i, hi, hxi⟩ := List.getElem_of_mem hx
+    rw [List.length_take] at hi
+    have := hg.hlim i (by omega)
+    rw [List.getD_eq_getElem?_getD, List.getElem?_eq_getElem (by omega)] at this
+    rw [List.getElem_take] at hxi
+    simp only [Option.getD_some] at this
+    omega
+  obtain ⟨b1, hb1, _⟩ := convert_spec (d1.take len) bits hd15
+    (by rw [List.length_take]; omega) (by rw [List.length_take]; omega)
+  have hcv : convertBitDepthsToSymbols d1 len bits = .ok b1 := by
+    rw [convert_take d1 len bits hd1len]; exact hb1
+  rw [hcv]
+  simp only [Out.bind_ok]
+  rw [if_neg (by omega)]
+  have hgb := goodBits_of_convert d1 bits b1 len 15 (by decide) hd1len hg.hlim (by omega) hbl hcv
+  obtain ⟨sbits, hst, hrd⟩ := BV.Lemmas.HuffmanStoreTree.store_tree_roundtrip_ctx d1 len A tree w rest
+    hd1len h704 hd15 hg.hkraft ht37 hA (by
+      intro i hi1 hi2
+      by_cases hz : d1.getD i 0 = 0
+      · exact hz
+      · exfalso
+        have := (hg.hsupp i hi2).mp hz
+        have hm : i ∈ ascNZ histogram len 0 := (mem_ascNZ histogram len 0 i).mpr ⟨by omega, by omega, this⟩
+        have := hu i hm
+        omega)
+  rw [hst]
+  simp only [Out.bind_ok]
+  exact ⟨d1, b1, sbits, rfl, hg, hgb, hrd⟩
 
 end BV.Lemmas.HuffmanSimple
